@@ -21,12 +21,13 @@ import (
 	"sync"
 	"time"
 
+	"github.com/mimoo/disco/libdisco"
 	"golang.org/x/crypto/ssh"
 
 	"github.com/honeytrap/honeytrap/config"
 	"github.com/honeytrap/honeytrap/event"
 	"github.com/honeytrap/honeytrap/listener"
-	agentl "github.com/honeytrap/honeytrap/listener/agent"
+	_ "github.com/honeytrap/honeytrap/listener/agent"
 	"github.com/honeytrap/honeytrap/pushers"
 	"github.com/honeytrap/honeytrap/server"
 	"github.com/honeytrap/honeytrap/storage"
@@ -288,6 +289,54 @@ func probeLDAP() ([]byte, error) {
 	return tlsLeaf(cc)
 }
 
+// probeAgent starts the real agent listener (registry entry "agent": its Start runs the
+// load-or-generate function KeyPair and listens with the key pair) on a loopback port
+// and performs a Noise_NK handshake as an agent would, against the public key the store
+// holds afterwards: the handshake completes only if the listener owns the matching
+// private key.  Returns that public key.
+func probeAgent() ([]byte, error) {
+	ln, err := net.Listen("tcp", "127.0.0.1:0")
+	if err != nil {
+		return nil, err
+	}
+	addr := ln.Addr().String()
+	ln.Close()
+	var ac config.Config
+	if err := ac.Load(strings.NewReader(fmt.Sprintf("[listener]\ntype=\"agent\"\nlisten=%q\n", addr))); err != nil {
+		return nil, err
+	}
+	fn, ok := listener.Get("agent")
+	if !ok {
+		return nil, fmt.Errorf("no agent listener registered")
+	}
+	al, err := fn(listener.WithChannel(theL.bus), listener.WithConfig(ac.Listener, &ac))
+	if err != nil {
+		return nil, err
+	}
+	if err := al.Start(context.Background()); err != nil {
+		return nil, fmt.Errorf("agent listener start: %v", err)
+	}
+	ns, err := storage.Namespace("agent")
+	if err != nil {
+		return nil, err
+	}
+	key, err := ns.Get("key")
+	if err != nil || len(key) != 128 {
+		return nil, fmt.Errorf("agent.key not stored after the listener started (%d bytes, %v)", len(key), err)
+	}
+	pub := make([]byte, 32)
+	if _, err := hex.Decode(pub, key[64:]); err != nil {
+		return nil, err
+	}
+	c, err := libdisco.DialWithDialer(&net.Dialer{Timeout: 10 * time.Second}, "tcp", addr,
+		&libdisco.Config{HandshakePattern: libdisco.Noise_NK, RemoteKey: pub})
+	if err != nil {
+		return nil, fmt.Errorf("handshake with the stored public key: %v", err)
+	}
+	c.Close()
+	return pub, nil
+}
+
 func readFull(c net.Conn, b []byte) (int, error) {
 	n := 0
 	for n < len(b) {
@@ -491,14 +540,8 @@ func childMain(jobPath string) {
 		note("ldap.pemcert", v, err)
 	}
 	if enabled["agent"] {
-		// the agent listener's load-or-generate function, as called by agentListener.Start
-		if st, err := agentl.Storage(); err != nil {
-			note("agent.key", nil, err)
-		} else if kp, err := st.KeyPair(); err != nil {
-			note("agent.key", nil, err)
-		} else {
-			note("agent.key", kp.PublicKey[:], nil)
-		}
+		v, err := probeAgent()
+		note("agent.key", v, err)
 	}
 	// the token as stamped on an event that reaches a configured channel
 	theL.bus.Send(event.New(event.Sensor("c18"), event.Category("c18-probe")))
